@@ -170,7 +170,7 @@ Proof.
     now rewrite (stmt_defs content x Hx), (go r Hr).
   - (* assignment *)
     rewrite app_nil_r. cbn [visit_stmt spec_defs_of]. rewrite item_defs_app.
-    assert (E2 : item_defs (if existsb (is_name "pytestmark") targets then map IUse (usefixtures_from_expr value) else []) = []).
+    assert (E2 : item_defs (if existsb (is_name "pytestmark") targets then map IUse (usefixtures_from_expr content value) else []) = []).
     { destruct (existsb _ targets); [apply item_defs_uses|reflexivity]. }
     rewrite E2, app_nil_r. clear E2.
     destruct value; try reflexivity. destruct value; try reflexivity.
@@ -203,16 +203,16 @@ Proof. destruct st; cbn; intros H; try discriminate; reflexivity. Qed.
     parameters and whatever its body contains (nested functions, strings, yields, ...) *)
 Theorem helpers_record_nothing content a name args returns body line eline decs :
   existsb fixture_spelling decs = false -> prefixb "test_" name = false ->
-  (forall d, In d decs -> usefixtures_names d = [] /\ indirect_fixtures d = []) ->
+  (forall d, In d decs -> usefixtures_names content d = [] /\ indirect_fixtures content d = []) ->
   visit_stmt content (SFunctionDef a name decs args returns body line eline) = [].
 Proof.
   intros Hf Ht Hm. cbn [visit_stmt]. unfold function_items.
-  assert (E1 : flat_map (fun d => map IUse (usefixtures_names d)) decs = []).
+  assert (E1 : flat_map (fun d => map IUse (usefixtures_names content d)) decs = []).
   { induction decs as [|d ds IH]; cbn [flat_map]; [reflexivity|].
     rewrite (proj1 (Hm d (or_introl eq_refl))), IH; [reflexivity| |].
     - cbn in Hf. apply orb_false_iff in Hf. tauto.
     - intros x Hx. apply Hm. now right. }
-  assert (E2 : flat_map (fun d => map IUse (indirect_fixtures d)) decs = []).
+  assert (E2 : flat_map (fun d => map IUse (indirect_fixtures content d)) decs = []).
   { clear E1. induction decs as [|d ds IH]; cbn [flat_map]; [reflexivity|].
     rewrite (proj2 (Hm d (or_introl eq_refl))), IH; [reflexivity| |].
     - cbn in Hf. apply orb_false_iff in Hf. tauto.
@@ -251,7 +251,7 @@ Proof. unfold item_uses. apply flat_map_app. Qed.
 Lemma item_uses_map l : item_uses (map IUse l) = l.
 Proof. induction l as [|x l IH]; cbn; [reflexivity|]. now f_equal. Qed.
 
-Lemma usefixtures_names_marks d : map use_key (usefixtures_names d) = mark_strings "usefixtures" d.
+Lemma usefixtures_names_marks (content : text) d : map use_key (usefixtures_names content d) = mark_strings "usefixtures" d.
 Proof.
   destruct d; try reflexivity. cbn [usefixtures_names mark_strings]. rewrite is_mark_spelling.
   destruct (mark_spelling "usefixtures" d); [|reflexivity].
@@ -268,8 +268,8 @@ Proof.
   specialize (IH H). lia.
 Qed.
 
-Fixpoint usefixtures_from_expr_marks (e : expr) :
-  forall fuel, (expr_size e <= fuel)%nat -> map use_key (usefixtures_from_expr e) = mark_strings_in fuel e.
+Fixpoint usefixtures_from_expr_marks (content : text) (e : expr) :
+  forall fuel, (expr_size e <= fuel)%nat -> map use_key (usefixtures_from_expr content e) = mark_strings_in fuel e.
 Proof.
   intros fuel Hf. destruct fuel as [|fuel]; [pose proof (expr_size_pos e); lia|].
   destruct e; try reflexivity.
@@ -277,30 +277,44 @@ Proof.
   - cbn [usefixtures_from_expr mark_strings_in]. cbn [expr_size] in Hf. apply le_S_n in Hf.
     revert elts Hf. fix go 1. intros [|x r] Hf; cbn [flat_map map]; [reflexivity|].
     cbn [fold_right] in Hf. rewrite map_app.
-    rewrite (usefixtures_from_expr_marks x fuel), (go r); [reflexivity| |].
+    rewrite (usefixtures_from_expr_marks content x fuel), (go r); [reflexivity| |].
     + lia.
     + lia.
   - cbn [usefixtures_from_expr mark_strings_in]. cbn [expr_size] in Hf. apply le_S_n in Hf.
     revert elts Hf. fix go 1. intros [|x r] Hf; cbn [flat_map map]; [reflexivity|].
     cbn [fold_right] in Hf. rewrite map_app.
-    rewrite (usefixtures_from_expr_marks x fuel), (go r); [reflexivity| |].
+    rewrite (usefixtures_from_expr_marks content x fuel), (go r); [reflexivity| |].
     + lia.
     + lia.
 Qed.
 
-Lemma flat_marks decs :
-  map use_key (item_uses (flat_map (fun d => map IUse (usefixtures_names d)) decs))
+Lemma flat_marks (content : text) decs :
+  map use_key (item_uses (flat_map (fun d => map IUse (usefixtures_names content d)) decs))
   = flat_map (mark_strings "usefixtures") decs.
 Proof.
   induction decs as [|d ds IH]; cbn [flat_map]; [reflexivity|].
   now rewrite item_uses_app, item_uses_map, map_app, usefixtures_names_marks, IH.
 Qed.
-Lemma flat_indirect decs :
-  map use_key (item_uses (flat_map (fun d => map IUse (indirect_fixtures d)) decs))
-  = flat_map (fun d => map (fun u => (lu_name u, lu_line u)) (indirect_fixtures d)) decs.
+(** name and line of an indirect usage do not depend on the text (only its columns do) *)
+Lemma indirect_keys (content : text) d :
+  map use_key (indirect_fixtures content d) = map (fun u => (lu_name u, lu_line u)) (indirect_fixtures [] d).
+Proof.
+  destruct d; try reflexivity. unfold indirect_fixtures.
+  destruct (is_mark "parametrize" d); [|reflexivity].
+  destruct (find_map _ kws) as [ind|]; [|reflexivity].
+  destruct args as [|a0 args]; [reflexivity|]. destruct a0; try reflexivity.
+  destruct ind; try reflexivity.
+  - destruct b; [|reflexivity]. rewrite !map_map. reflexivity.
+  - induction elts as [|x r IH]; cbn [flat_map map]; [reflexivity|].
+    rewrite !map_app, IH. f_equal. destruct x; try reflexivity.
+    destruct (mem_str _ _); reflexivity.
+Qed.
+Lemma flat_indirect (content : text) decs :
+  map use_key (item_uses (flat_map (fun d => map IUse (indirect_fixtures content d)) decs))
+  = flat_map (fun d => map (fun u => (lu_name u, lu_line u)) (indirect_fixtures [] d)) decs.
 Proof.
   induction decs as [|d ds IH]; cbn [flat_map]; [reflexivity|].
-  now rewrite item_uses_app, item_uses_map, map_app, IH.
+  now rewrite item_uses_app, item_uses_map, map_app, IH, indirect_keys.
 Qed.
 
 Lemma param_requests skip args :
